@@ -29,7 +29,9 @@ const (
 	NFSERR_NOT_SYNC    = 10002 // Update synchronization mismatch (sattrguard3)
 	NFSERR_NOTSUPP     = 10004 // Operation not supported
 	NFSERR_JUKEBOX     = 10008 // Server busy, try again later (used during policy drain)
-	NFSERR_DELAY       = 10013 // Server is temporarily busy (rate limit exceeded)
+	// NFSv3 has no NFS3ERR_DELAY (10013 is NFS4ERR_DELAY and not a member of
+	// nfsstat3); its "busy, retry later" status is NFS3ERR_JUKEBOX.
+	NFSERR_DELAY = NFSERR_JUKEBOX // Server is temporarily busy (rate limit exceeded, timeout)
 
 	// Alias for backward compatibility - use NFSERR_ACCES for NFS3 access denied errors
 	ACCESS_DENIED = NFSERR_ACCES
